@@ -232,7 +232,7 @@ pub fn family_members(tier: Tier) -> Vec<Case> {
     for (n, d) in [(8usize, 8usize), (32, 16), (100, 24), (200, 32)] {
         v.push(fanout(n, d));
     }
-    for d in [4usize, 8, 12, 16, 20, 22, 24, 26] {
+    for d in [4usize, 8, 12, 16, 20, 22, 24, 26, 28, 29] {
         v.push(types(d, 2, false));
         v.push(types(d, 2, true));
     }
@@ -328,7 +328,7 @@ pub fn eval_replay(_sut: &dyn Sut, v: &serde_json::Value) -> Result<(), String> 
 pub fn run(_sut: &dyn Sut, tier: Tier) -> ! {
     crate::preflight::quiet_panics();
     let mut run = Run::new("C20", tier);
-    run.rule = format!("deterministic family members (call chains with 1-3 call sites per level and mixed value/void calls up to depth 64, chains of helpers without return value with 1-3 call statements per level up to depth 64, diamonds up to 40 layers, fan-out to a shared chain, nested struct types up to depth 26 directly and through arrays, wide flat shaders with hundreds of bindings/members/constants) plus random helper DAGs of 4..300 functions drawn by proptest; each is generated in a worker child whose own CPU time (getrusage) is compared with {CPU_THRESHOLD_S}s; children are killed at {CPU_KILL_S}s CPU by RLIMIT_CPU. Non-trivial = call/type depth >= 16 or >= 100 functions/bindings/members; distinct by source text.");
+    run.rule = format!("deterministic family members (call chains with 1-3 call sites per level and mixed value/void calls up to depth 64, chains of helpers without return value with 1-3 call statements per level up to depth 64, diamonds up to 40 layers, fan-out to a shared chain, nested struct types up to depth 29 directly and through arrays, wide flat shaders with hundreds of bindings/members/constants) plus random helper DAGs of 4..300 functions drawn by proptest; each is generated in a worker child whose own CPU time (getrusage) is compared with {CPU_THRESHOLD_S}s; children are killed at {CPU_KILL_S}s CPU by RLIMIT_CPU. Non-trivial = call/type depth >= 16 or >= 100 functions/bindings/members; distinct by source text.");
     run.assumptions = vec![
         "cost is CPU seconds of the child (user+sys), never wall clock; the harness build has debug assertions on, which costs < 2x".into(),
         "shallow shaders of this size cost 1-30 ms (measured, reported as max_cpu_s), so the threshold has > 50x slack".into(),
